@@ -237,6 +237,22 @@ func (o *obs) key() string {
 			attached += "m"
 		}
 	}
+	// handshake letters received so far: the handshake thread keeps its progress in local variables
+	// the dump cannot show, so histories that differ in how often the peer said version / verack
+	// (up to 4 times each, until it has seen both) are different states
+	nv, na := 0, 0
+	for _, l := range o.all {
+		if nv > 0 && na > 0 {
+			break // both seen: the handshake thread is over, later repetitions meet no hidden state
+		}
+		if l == "version" && nv < 4 {
+			nv++
+		}
+		if l == "verack" && na < 4 {
+			na++
+		}
+	}
+	attached += fmt.Sprintf(" version*%d verack*%d", nv, na)
 	return fmt.Sprintf("%s|attached=%s|closed=%t stuck=%t|hdr=%s,%s peers=%s,%s tx=%s|sent=%s", o.dump, attached, o.closedAt != -1, o.stuckAt != -1,
 		capCount(o.process), capCount(o.verify), capCount(o.adds), capCount(o.scores), capCount(o.processed), strings.Join(cs, ","))
 }
@@ -360,7 +376,7 @@ func main() {
 		Assumptions: []string{
 			"the node runs free (real goroutines) on an in-memory connection; scheduling inside the node is not enumerated: only oracles that are conclusive on observation are used, and every violation must reproduce in 3 of 3 re-executions before it is reported",
 			"one transition = deliver one complete, correctly framed message, then a ping barrier (pong + node quiescent by hooked dump) bounded by 4 s; the handshake's own 3 s timeout is never reached in a run that takes milliseconds",
-			"state key: hooked node dump + spy counters + per-command counts of what the node sent (capped at 3)",
+			"state key: hooked node dump + spy counters + per-command counts of what the node sent (capped at 3) + number of version / verack messages received (capped at 4: the handshake thread's progress is in local variables)",
 		},
 		Wall: time.Since(start).Seconds()}
 	os.Exit(mc.Finish(ev, all))
